@@ -45,6 +45,10 @@ def plan(tier, seed):
             s = F.gen_spec(rng, tier, steps=(60, 160), restarts=False)
             s["n_jumps"] = rng.choice([1, 2, 3, 6])
             s["maxlength"] = rng.choice([2000, 60, 30, 15, 9])
+            if rng.random() < 0.2:
+                # permeability [0-] with lambda_minus_one exactly 0.0 (the
+                # axis is shifted so that no lattice site sits on it)
+                s["lm1"], s["shift"] = -1.5, 1.5
             specs.append(s)
         jobs.append({"kind": "rig", "hashseed": rng.randrange(1000),
                      "specs": specs})
@@ -54,6 +58,12 @@ def plan(tier, seed):
         jobs.append({"kind": "zswf", "wf0": True, "hashseed": 0,
                      "seed": rng.randrange(2 ** 31),
                      "count": 60 if tier == "quick" else 150})
+    # ... and the plain / QuanTIS / lambda_-1 zero swaps of the same harness
+    # (length limits right at the lengths the new paths will have)
+    for j in range(12 if tier == "quick" else 64):
+        jobs.append({"kind": "zswf", "wf0": False, "hashseed": 0,
+                     "seed": rng.randrange(2 ** 31),
+                     "count": 100 if tier == "quick" else 200})
     grid = []
     for L_old in range(3, 11 if tier == "quick" else 16):
         for b in range(2, 9 if tier == "quick" else 12):
@@ -95,7 +105,8 @@ def _mons(spec, cdir):
                                 f"move returned accept={acc} with status "
                                 f"{status} (md_items status {out['status']})")
             MoveMonitor.after_run_md(self, rig, out)
-    return [M(check_zero_swap=False, subcycles=spec.get('subcycles', 1))]
+    return [M(check_zero_swap=False, subcycles=spec.get('subcycles', 1),
+              shift=spec.get('shift', 0.0))]
 
 
 def _nontrivial(rig, spec, mons):
